@@ -8,9 +8,9 @@ import time
 
 from . import harness as H
 
-KDIR = os.path.join(H.VERIF, 'kani')
+KDIR = H.crate_dir('kani')
 TDIR = os.path.join(H.BUILD, 'kani')
-ALLOWED_PANIC_FILES = ('/repo/src/hex.rs', 'library/core/src/slice/index.rs', 'library/core/src/slice/mod.rs',
+ALLOWED_PANIC_FILES = (H.REPO + '/src/hex.rs', 'library/core/src/slice/index.rs', 'library/core/src/slice/mod.rs',
                        'library/core/src/panicking.rs', 'library/core/src/ops/range.rs', 'library/core/src/array/mod.rs',
                        'library/core/src/ops/index_range.rs')
 
@@ -25,7 +25,7 @@ def kenv():
 def run_kani(filt, timeout=3000, jobs=16):
     lock = os.path.join(KDIR, 'Cargo.lock')
     if not os.path.exists(lock):
-        shutil.copy('/repo/Cargo.lock', lock)
+        shutil.copy(os.path.join(H.REPO, 'Cargo.lock'), lock)
     t0 = time.time()
     cmd = ['cargo', 'kani', '-Z', 'stubbing', '-j', str(jobs), '--output-format', 'terse', '--harness', filt]
     try:
